@@ -301,7 +301,7 @@ def scene_many_slices(draw):
         rows.append(['B', -900.0 + j * 5 + 1, float(2000 + 400 * j), 1])
     return {'cls': 'many_slices', 'rows': rows,
             'prms_hint': {'SLICING_PRMS': {'distance_threshold': 0.004},
-                          'MIN_SEP_VALS': [60, 60], 'MAX_HITS_OKTA0': 0}}
+                          'MIN_SEP_VALS': [60, 60], 'MIN_SEP_LIMS': [10000], 'MAX_HITS_OKTA0': 0}}
 
 
 @st.composite
@@ -335,6 +335,61 @@ def scene_limit_crossing(draw):
             'prms_hint': {'MIN_SEP_VALS': [small, big], 'MIN_SEP_LIMS': [L],
                           'BASE_LVL_HEIGHT_PERC': draw(st.sampled_from([5, 50, 60, 95])),
                           'SLICING_PRMS': {'distance_threshold': draw(st.sampled_from([0.01, 0.02]))}}}
+
+
+@st.composite
+def scene_double_split(draw):
+    """ Two (or three) well separated decks, each made of 2-3 close height modes with >= 30 hits: several
+    groups of one chunk get split, some after a 3 -> 2 re-merge of mixture components. """
+    n = draw(st.integers(34, 60))
+    ndecks = draw(st.integers(2, 3))
+    meas = [('a', -900.0 + 900.0 * i / n) for i in range(n)]
+    hits = [[] for _ in range(n)]
+    base = draw(st.sampled_from([500, 1000, 3000]))
+    for d in range(ndecks):
+        nmodes = draw(st.integers(2, 3))
+        gap = draw(st.sampled_from([120, 200, 260, 300, 400]))
+        thick = draw(st.sampled_from([0, 20, 60, 120]))
+        noise = ints(draw, 0, 1000, n)
+        pick = ints(draw, 0, 99, n)
+        for i in range(n):
+            m = pick[i] % nmodes
+            h = base + d * 6000 + m * gap + thick * noise[i] / 1000
+            hits[i].append(float(round(h)))
+    rows = rows_from_hits(meas, hits)
+    return {'cls': 'double_split', 'rows': draw(order_rows(rows)), 'hint': {'min_sep': draw(st.sampled_from(
+        [100, 250, 250, 300]))}}
+
+
+@st.composite
+def scene_tie_split(draw):
+    """ Split candidate seen by 2-4 instruments with identical time stamps and per-instrument height offsets:
+    every sub-layer holds groups of simultaneous hits of different heights, so that the look-back cut falls
+    inside a dt tie (the order of tied hits then matters). """
+    nc = draw(st.integers(2, 4))
+    names = draw(st.lists(st.sampled_from(NAME_POOL), min_size=nc, max_size=nc, unique=True))
+    nt = draw(st.integers(12, 24))
+    dts = [-900.0 + 900.0 * i / nt for i in range(1, nt + 1)]
+    base = draw(st.sampled_from([500, 1500, 4000]))
+    min_sep = draw(st.sampled_from([100, 150, 250]))
+    gap = draw(st.sampled_from([300, 450, 600]))
+    offs = {nm: draw(st.sampled_from([-30, -12, 7, 25, 40])) for nm in names}
+    trend = draw(st.sampled_from([0, 60, -60, 150]))
+    meas, hits = [], []
+    noise = ints(draw, 5, 60, nc * nt * 2)
+    k = 0
+    for nm in names:
+        for j, dt in enumerate(dts):
+            meas.append((nm, dt))
+            h1 = base + offs[nm] + trend * j / nt + noise[k]
+            h2 = base + gap + offs[nm] - trend * j / nt + noise[k + 1]
+            k += 2
+            hits.append([float(round(h1)), float(round(h2))])
+    rows = rows_from_hits(meas, hits)
+    return {'cls': 'tie_split', 'rows': draw(order_rows(rows, ('desc', 'shuffled', 'shuffled', 'by_ceilo', 'asc'))),
+            'hint': {'min_sep': min_sep},
+            'prms_hint': {'SLICING_PRMS': {'distance_threshold': 0.9}, 'MIN_SEP_VALS': [min_sep, min_sep],
+                          'MIN_SEP_LIMS': [10000]}}
 
 
 DEGENERATE_KINDS = ['single_hit', 'all_nan', 'all_vv', 'two_rows', 'identical', 'two_heights',
@@ -430,6 +485,8 @@ SCENES = {
     'degenerate': scene_degenerate,
     'ref_window': scene_ref_window,
     'limit_crossing': scene_limit_crossing,
+    'double_split': scene_double_split,
+    'tie_split': scene_tie_split,
 }
 
 
@@ -446,17 +503,26 @@ def scene(weights):
 
 
 @st.composite
-def with_anomalies(draw, case, negative=True):
+def with_anomalies(draw, case, negative=True, big=True):
     """ Inject the anomalies that the docs list as warnings only. Keeps the screening rules. """
     rows = [list(r) for r in case['rows']]
-    kinds = draw(st.lists(st.sampled_from(['t0_height', 'typed_nan', 'missing_lower', 'unordered',
-                                           'same_type', 'negative', 'big']),
-                          min_size=0, max_size=2, unique=True))
+    pool = ['t0_height', 'typed_nan', 'missing_lower', 'unordered', 'unordered', 'unordered_all', 'same_type']
+    pool += (['negative'] if negative else []) + (['big'] if big else [])
+    kinds = draw(st.lists(st.sampled_from(pool), min_size=1, max_size=2, unique=True))
     by_meas = {}
     for i, r in enumerate(rows):
         by_meas.setdefault((r[0], r[1]), []).append(i)
     keys = sorted(by_meas)
     for kind in kinds:
+        if kind == 'unordered_all':
+            # hit types in descending height order in every multi-hit measurement
+            for idx in by_meas.values():
+                if len(idx) >= 2 and rows[idx[0]][3] >= 1:
+                    types = sorted((rows[i][3] for i in idx), reverse=True)
+                    order = sorted(idx, key=lambda i: (rows[i][2] is None, rows[i][2] or 0))
+                    for i, t in zip(order, types):
+                        rows[i][3] = t
+            continue
         key = keys[draw(st.integers(0, len(keys) - 1))]
         idx = by_meas[key]
         if kind == 't0_height' and len(idx) == 1 and rows[idx[0]][3] == 0:
@@ -671,11 +737,11 @@ def merge_dict(a, b):
 @st.composite
 def pipeline_case(draw, weights, vary=('msa', 'okta', 'sep', 'base', 'lowess', 'algo'),
                   anomalies=False, exclude=True, p_default_prms=0.25, global_modes=False,
-                  base_p_default=0.3, msa_kinds=None, index_kinds=False):
+                  base_p_default=0.3, msa_kinds=None, index_kinds=False, anomaly_negative=True):
     """ A scene plus a parameter set. """
     case = draw(scene(weights))
     if anomalies and draw(st.integers(0, 9)) < 3:
-        case = draw(with_anomalies(case))
+        case = draw(with_anomalies(case, negative=anomaly_negative))
     prms = {}
     if draw(st.floats(0, 1)) >= p_default_prms:
         if 'msa' in vary:
